@@ -277,6 +277,13 @@ def run_case(ctx, g, rng):
         data = {"@context": ctxd}
         if rng.random() < 0.3:
             data["@id"] = "x"
+        if rng.random() < 0.3:
+            # an ordinary JSON-LD document: the context is one member among others, which are data, not terms - also when
+            # the context itself is empty (seed C13-Q: "@context or the object itself")
+            data["name"] = "Alice"
+            data[rng.choice(P[:5]) or "homepage"] = rng.choice(U)
+            data["knows"] = {"@id": rng.choice(U), "@prefix": True}
+            shapes.add("document-members")
         loader = rng.choice([C.from_jsonld, api.load_jsonld_context])
         o = three_forms(ctx, loader, data, "jsonld")
         with_options(C.from_jsonld, data, rng)
